@@ -23,6 +23,12 @@ Atomic events (a schedule is a `List Event`, any interleaving):
   * `take c`       the running task of `c` takes the oldest buffered message and fans it out to its snapshot — one
                    `Sample(msg.timestamp, extractor(msg))` per sender, metrics in dict order, senders in list order.
 
+The `take` event assumes that the streaming task hands EVERY message it receives to the fan-out, whatever the message
+contains (timestamps and values are opaque: they may repeat, decrease, coincide across components), and that the
+fan-out sends one `Sample(msg.timestamp, Quantity(extractor(msg)))` per sender.  That assumption is read off the
+current source by the extractor (`messagePath`, `fanoutBody`: taint analysis of the `async for` loop body and of
+`process_msg`) and checked by `takeFaithful` below / `C20_message_path_unconditional`.
+
 Not modelled (trusted, sampled by the harness): asyncio delivers the cancellation before the new task first polls
 the shared receiver; a cancelled `ready()` leaves the message in the receiver; the detached `process_msg` / `send`
 tasks run in creation order (FIFO ready queue), so a fan-out is observed as one atomic step per channel; the
@@ -219,6 +225,23 @@ def stuck (cfg : Config) (s : State) : List Event → Nat
           | _, _ => 1)
       | .start cid => if (s.comps cid).pending = true then 0 else 1
       | _ => 0) + stuck cfg (step cfg s e).1 es
+
+/-! ### The source's per-message path is the `take` event -/
+
+/-- A branch on the per-message path that the `take` event tolerates: it neither reads message content (of this or
+an earlier message) nor can skip / end the path (logging under a level test, say). -/
+def guardBenign (g : Guard) : Bool := !g.readsMessage && !g.canSkip
+
+/-- The extracted facts about the streaming loop and the fan-out function say what `take` / `fanout` model: the raw
+API stream is iterated; every received message — the received object itself — is handed to the fan-out exactly once,
+unconditionally, followed by an `await`; no branch on the way reads message content or can skip; the fan-out sends
+once per sender of the snapshot the sample `(msg.timestamp, Quantity(extractor(msg)))`, again without any
+content-dependent or skipping branch. -/
+def takeFaithful (p : MessagePath) (f : FanoutBody) : Bool :=
+  p.streamUnfiltered && p.schedulesOnce && p.passesReceivedMessage && p.awaitsAfterScheduling &&
+  p.guards.all guardBenign &&
+  f.onePerSender && decide (f.sampleTimestamp = .msgAttr "timestamp") &&
+  decide (f.sampleValue = .quantityOfExtractor) && f.guards.all guardBenign
 
 /-! ### What a metric id means (specification side, independent of the source tables) -/
 
